@@ -176,6 +176,30 @@ CHECKS["C18"] = dict(level="model_checking", design="5 C18",
          "the rational lattice, observed elsewhere). Four named deviations are known findings (torque as a point force, loads on "
          "stiffness-free amplitudes dropped, LA column not moved to the right-hand side, kkk returns the complement block).")
 
+_EIG_NOTE = ("Assumption of the module (the only one): the scipy/ARPACK/LAPACK solver contract SolverOK (eigsh/eigs/eigh/eig return "
+             "eigenpairs of the reduced pencil selected by the shift-invert / Cayley / LM mode; selection assumed only in the stated "
+             "regime or for reduced sizes <= 20). Eigen-residuals, zero patterns and values are OBSERVATIONS of the real code recorded "
+             "exactly and judged by the trace specification (values at 2^-30 in mu-space); the abstract spectrum of package-made "
+             "matrices is measured by Cholesky + eigvalsh and recorded as an assumption. ARPACK start vectors are random: "
+             "eigenvectors are judged through residuals only.")
+_EIG_TECH = ("TLA+ module EigWrap: the wrapper logic of lb / Panel.lb / ConeCyl.lb / freq / Panel.freq as one state machine (ChooseK, "
+             "TrySparse, RemoveNull, SolveReduced under the solver contract, Scatter, NegateInvert/Sqrt, Sort, ReExpand, Return) over an "
+             "exact abstract spectrum; TLC invariants: zeros off active amplitudes, pairing, ordering in the regime, path agreement, "
+             "scaling, no raise; every TLC-emitted case realised as real matrices K = P^T D P and run through the real functions, "
+             "verdict by TLC trace validation with named deviations")
+CHECKS["C05"] = dict(level="model_checking", design="5 C05", note=_EIG_NOTE, technique=_EIG_TECH,
+    text="Wrapper logic of the buckling analysis is model-checked for all active sets and mixed-sign spectra of sizes <= 7 and bound to "
+         "the code by replaying every lattice case (about 4 000) plus package-made and random pairs through lb (both switches), "
+         "Panel.lb and ConeCyl.lb: residual (K + lambda KG) v = 0 observed, zeros on stiffness-free amplitudes exact, ascending from "
+         "the smallest positive multiplier in the sub-critical destabilising regime, sparse = dense on the common prefix, load scaling. "
+         "Five named deviations are known findings (non-positive tail, three shape/size crashes, ConeCyl's mode='buckling' retry).")
+CHECKS["C06"] = dict(level="model_checking", design="5 C06", note=_EIG_NOTE, technique=_EIG_TECH,
+    text="Same module, frequency instance: null-column removal, eigs(sigma=-1)/eig contracts, sqrt, the rounding-based sort modelled "
+         "literally, reduced_dof take/re-expand; every lattice case (about 4 400) plus package-made (K, M) replayed through freq (sparse, "
+         "dense, sort, reduced_dof) and Panel.freq: K v = omega^2 M v observed, omega > 0 and ascending when sort is requested, zero "
+         "pattern, path agreement, mass scaling. Four named deviations are known findings (rounded sort, size crash, reduced_dof "
+         "scatter, dense column-sum test).")
+
 NOT_YET = {}
 
 NA = {
